@@ -335,7 +335,8 @@ def main(argv):
     try:
         if sel:
             try:
-                scratch, prep_log = prepare_scratch.prepare(os.environ.get("VERIF_SCRATCH"))
+                scratch, prep_log = prepare_scratch.prepare(os.environ.get("VERIF_SCRATCH"), None,
+                                                            sorted({h["file"] for h in sel}))
             except prepare_scratch.PrepError as e:
                 log(f"INCONCLUSIVE: {e}")
                 return 2
